@@ -82,6 +82,9 @@ EXTRAS = {  # variant -> (member, payload (None = copy of a slide), Override typ
     "orphan-rels": ("ppt/_rels/verifGhost.xml.rels", GHOST_RELS, None),
     "slide-like": ("ppt/slides/slide99.xml", None, CT_SLIDE),
     "dir-entry": ("ppt/verifEmptyDir/", b"", None),
+    # unreferenced members whose names differ from a real part's only in letter case (zip member names are case-sensitive)
+    "case-variant-main": ("PPT/PRESENTATION.XML", b"<not-the-presentation/>", None),
+    "case-variant-rels": ("PPT/_RELS/PRESENTATION.XML.RELS", b"<not-the-relationships/>", None),
 }
 STRUCT = {"no-content-types": KeyError, "no-root-rels": KeyError, "no-office-document-rel": KeyError, "main-part-absent": KeyError,
           "main-type-word": ValueError, "main-type-excel": ValueError, "main-type-template": ValueError, "main-type-slideshow": ValueError}
@@ -548,6 +551,37 @@ def step2(prs, pin, pin_problems, acc, witness, label, kinds):
     inv = {b: a for a, b in mapping.items()}
     for rule, detail in new_closure_problems(pin_problems, pout, inv)[:4]:
         bad("step2-closure:%s" % rule, detail)
+    if nbad[0]:
+        return
+    # step 3: the opened package is USED - something is related to its slides (a picture added to each of the first two); what
+    # the irregular package still reached through the relationships it had must be reached through them afterwards
+    slides = list(prs.slides)[:2]
+    if not slides:
+        return
+    try:
+        from vlib import gen
+
+        for k, sl_ in enumerate(slides):
+            sl_.shapes.add_picture(io.BytesIO(gen.png_bytes(random.Random("c16-step3-%d" % k))), 0, 0)
+        buf3 = io.BytesIO()
+        prs.save(buf3)
+    except Exception as e:  # noqa
+        bad("step3-raises:%s" % type(e).__name__, "add_picture on the opened deck / third save raised %r" % (e,))
+        return
+    acc.count("third_saves_after_additions")
+    p3 = opcx.Pkg.from_bytes(buf3.getvalue())
+    for a, b in mapping.items():
+        ra = {r.id: r for r in (pin.rels(a) or []) if not r.external and pin.has_part(r.target)}
+        rb = {r.id: r for r in (p3.rels(b) or [])}
+        for rid, x in ra.items():
+            y = rb.get(rid)
+            if y is None or y.external or not p3.has_part(y.target):
+                bad("step3-relationship-lost", "%s %s (-> %s in the input) is gone or dangling after a picture was added" % (b, rid, x.target))
+            elif pin.ctype(x.target) != CT_SLIDE and x.target != main_part(pin) and pin.ctype(x.target) == p3.ctype(y.target) and not x.target.endswith(".xml"):
+                if pin.blob(x.target) != p3.blob(y.target):
+                    bad("step3-relationship-resolves-to-different-content", "%s %s: input %s and %s now carry different bytes" % (b, rid, x.target, y.target))
+            elif pin.ctype(x.target) != p3.ctype(y.target):
+                bad("step3-relationship-resolves-to-different-content", "%s %s: %s (%s) now resolves to %s (%s)" % (b, rid, x.target, pin.ctype(x.target), y.target, p3.ctype(y.target)))
 
 
 def exercise(members, faults, form, acc, witness, label):
